@@ -23,6 +23,7 @@ import common as C
 from common import f2h, h2f, vec2p
 
 INF = float('inf')
+STATS = {'fb_exact_regime': 0, 'fb_general': 0, 'layout': 0, 'iset': 0}
 
 
 # ------------------------------------------------------------------------------ parsing
@@ -481,7 +482,7 @@ def mon_fb(t, out, st):
         tolV = eps * (Vm.v + 1)
         tolg = [eps * (a + 1) for a in Vm.g]
         tols = eps * (max([val(a) for row in xm + hm + cm for a in row] + [Fr(1)]) + 1)
-    st['exact'] = st.get('exact', 0) + (1 if exact else 0)
+    STATS['fb_exact_regime' if exact else 'fb_general'] += 1
     if not math.isfinite(V):
         return f'forward returned {V!r}'
     if abs(Fr(V) - Vd.v) > tolV:
@@ -520,8 +521,10 @@ def monitor(op, out, st):
     t = T(op)
     kind = t.tok()
     if kind == 'layout':
+        STATS['layout'] += 1
         return mon_layout(t, out)
     if kind == 'iset':
+        STATS['iset'] += 1
         return mon_iset(t, out)
     if kind == 'fb':
         return mon_fb(t, out, st)
@@ -922,6 +925,7 @@ def gn_stage(rep, broken, exe, tier):
 
 
 def extra_stage(rep, broken, exe, tier):
+    rep.cov['op_kinds_monitored'] = dict(STATS)
     if not exe:
         return
     riccati_stage(rep, broken, exe, tier)
@@ -934,6 +938,69 @@ def extra_stage(rep, broken, exe, tier):
              '; '.join(f'[{o[8:]}] {r}' for o, r in zip(obs, out)))
 
 
+# ------------------------------------------------------------------------------ replay
+
+def parse_ric_op(op):
+    t = T(op)
+    t.expect('ric'); t.nat()
+    N, nx, nu = t.nat(), t.nat(), t.nat()
+
+    def mat(r, c):
+        v = t.vec()
+        return [[Fr(v[i * c + j]) for j in range(c)] for i in range(r)]
+    stages = []
+    for _ in range(N):
+        A = mat(nx, nx); B = mat(nx, nu); Q = mat(nx, nx); R = mat(nu, nu); S = mat(nu, nx)
+        q = [Fr(a) for a in t.vec()]; r = [Fr(a) for a in t.vec()]; u = [Fr(a) for a in t.vec()]
+        stages.append(dict(A=A, B=B, Q=Q, R=R, S=S, q=q, r=r, u=u, mask=t.nat()))
+    QN = mat(nx, nx)
+    qN = [Fr(a) for a in t.vec()]
+    return N, nx, nu, stages, QN, qN
+
+
+def replay(r):
+    """`checks/replay.py <file>`: re-run the recorded op on the current tree and re-evaluate the monitor."""
+    op = (r.get('payload') or {}).get('op')
+    if not op:
+        print('no input recorded (broken proof obligation / tie):', r.get('what', '')[:500])
+        return 1
+    exe, log = C.build_exe('c12', [os.path.join(C.VERIF, 'harness', 'c12.cpp')] + C.repo_lib_sources(
+        ['problem/ocproblem.cpp']))
+    if exe is None:
+        print('harness does not build:', log[-800:])
+        return 1
+    out, rc, err = C.run_lines(exe, [op])
+    if rc != 0 or not out:
+        print(f'real code crashed (rc={rc}): {err[-300:]}')
+        return 1
+    print('impl:', out[0][:600])
+    kind = op.split()[0]
+    if kind == 'ric':
+        N, nx, nu, stages, QN, qN = parse_ric_op(op)
+        du, dxN, rcond = parse_ric_out(out[0])
+        ref = kkt_step(N, nx, nu, stages, QN, qN)
+        if ref is None:
+            print('reference KKT system singular'); return 0
+        e = max([abs(a - float(b)) for a, b in zip(du, ref[0])] + [0.0])
+        print(f'exact KKT step: {[float(a) for a in ref[0]]}; max deviation {e:.3g}')
+        return 1 if e > 2.0 ** -30 / max(rcond, 1e-12) * max([1.0] + [abs(float(a)) for a in ref[0]]) * (N + 1) else 0
+    if kind == 'gn':
+        t = T(op); t.tok(); t.tok()
+        p = Prob(t)
+        mu, y, xinit, u, qfix = t.vec(), t.vec(), t.vec(), t.vec(), t.vec()
+        masks = [t.nat() for _ in range(p.N)]
+        ref, _ = gn_reference(p, mu, y, xinit, u, qfix, masks)
+        o = T(out[0]); o.flt(); o.expect('du'); du = o.vec()
+        if ref is None:
+            print('reference KKT system singular'); return 0
+        e = max([abs(a - float(b)) for a, b in zip(du, ref[0])] + [0.0])
+        print(f'exact GN step: {[float(a) for a in ref[0]]}; max deviation {e:.3g}')
+        return 1 if e > 1e-6 * max([1.0] + [abs(float(a)) for a in ref[0]]) else 0
+    m = monitor(op, out[0], {})
+    print('monitor:', m if m else 'quiet')
+    return 1 if m else 0
+
+
 if __name__ == '__main__':
     sys.exit(C.standard_check(
         'C12', sys.argv,
@@ -941,7 +1008,7 @@ if __name__ == '__main__':
         extra_sources=['Alpaqa/Gen/C12.lean', 'Alpaqa/Model/C12.lean', 'Alpaqa/Proofs/Basic.lean',
                        'Driver/C12.lean'] + ['Alpaqa/Proofs/C12%s.lean' % n for n in (
                            'Layout', 'Seg', 'Compl', 'Vec', 'Forward', 'Penalty', 'Adjoint', 'Lin',
-                           'RicM', 'Riccati')],
+                           'RicM', 'Riccati', 'Optimal')],
         harness_name='c12',
         harness_sources=[os.path.join(C.VERIF, 'harness', 'c12.cpp')] + C.repo_lib_sources(
             ['problem/ocproblem.cpp']),
@@ -957,7 +1024,9 @@ if __name__ == '__main__':
             'the correspondence run (bit-exact for forward/backward incl. the exact regime; Riccati to '
             '2^-30·cond because Eigen LDLT / PartialPivLU enter as oracles with contract R̄X = B)',
             'user functions of the control problem are oracles (arbitrary functions; Jacobian-transpose '
-            'products by their adjointness contract)',
+            'products by their adjointness contract); `backward = Fréchet derivative of forward` is proved '
+            'up to the chain rule (adjoint = tangent sensitivity for every direction, penalty derivative) '
+            'and monitored by exact forward-mode differentiation of the cost polynomial',
         ],
         assumptions=['IEEE rounding is not modelled: theorems are over ordered fields; the exact-regime '
                      'inputs make the binary64 run coincide with the real-number semantics',
